@@ -17,6 +17,7 @@ EXPLANATION = (
     "CRC-32 itself, byte-exact re-encoding (value-level), mis-decoding without panic."
     " (R5) every `remaining < N => TruncatedInstruction` guard of decode_instructions asks for at most the bytes the opcode's arm consumes (opcodes a compiled program can contain only)."
     " (R1, extended) the verifier's mismatch edge ends in Err only and its match edge reaches Ok; (R6) check_alignment holds for every alignment the compiler can hand out and every offset that is a multiple of it."
+    ' (R3/R4, field-sensitive) a bound established on a header or table field discharges only uses of that same field; a comparison of one field never discharges another.'
 )
 
 READ_SRC = re.compile(r"ReadBytesExt::read_u(8|16|32|64|128)$|ReadBytesExt::read_i(8|16|32|64)$|::from_le_bytes$|::from_le$|ReadBytesExt::read_f(32|64)$")
@@ -354,6 +355,8 @@ def run(F, rep, tier):
                 rep.check(total(hw) == hsize, "C07-R2", "header:size-constant", "ByteCodeHeader::write_to writes %d bytes but HEADER_SIZE = %s" % (total(hw), hsize), sample={"written": total(hw), "HEADER_SIZE": hsize})
     run_r5(F, rep, crate, cg)
     run_r6(F, rep, crate, tier)
+    from rules.c07_fields import run_r7
+    run_r7(F, rep, crate)
 
 
 def _int_eval(e):
